@@ -11,10 +11,10 @@ E == INSTANCE Event
 Init == l = 1 /\ acc = 0 /\ kv = <<>> /\ TLCSet(1, 1)
 Line == Trace[l]
 Payload == /\ Line.k = "payload"
-           /\ Line.hex = E!Hex(Line.bytes) /\ Line.length = Len(Line.bytes) /\ Line.raw_ok /\ Line.json_ok
+           /\ Line.hex = E!Hex(Line.bytes) /\ Line.length = Len(Line.bytes) /\ Line.json_ok
            /\ acc' = 0
 Chunk == /\ Line.k = "chunk" /\ Line.hex = E!Hex(Line.bytes) /\ acc' = acc + Len(Line.bytes)
-Total == /\ Line.k = "total" /\ Line.n = acc /\ Line.length = acc /\ Line.hexlen = 2 * acc /\ Line.raw_ok /\ Line.json_ok
+Total == /\ Line.k = "total" /\ Line.n = acc /\ Line.length = acc /\ Line.hexlen = 2 * acc /\ Line.json_ok
          /\ acc' = 0
 Addr == /\ Line.k = "addr" /\ acc' = 0
         /\ IF Line.net \in {"tcp", "udp"}
